@@ -13,6 +13,9 @@ import (
 	"verif/harness/internal/tr"
 )
 
+// defaultDeep: no WithDeep option (the package default, 8192).
+const defaultDeep = -1000
+
 // nilVal is what a nil / foreign value is logged as: matches no store value.
 const nilVal = -1000000
 
@@ -27,6 +30,10 @@ type sv struct{ v, s int }
 
 func (x sv) Size() int { return x.s }
 
+// pv is a row handed out by the store as a pointer: the very object travels through the group's
+// cache to the callers, who keep it (retained results are rendered when the history is over).
+type pv struct{ v int }
+
 // opData is the `data` argument handed to DoAdd/DoUpdate/...
 type opData struct{ k, d int }
 
@@ -40,6 +47,11 @@ type config struct {
 	Sized  bool   // values carry a size
 	Serial bool
 	Src    string
+	// life cycle: the group is started before plan step StartAt (0 = at once) and stopped before plan
+	// step StopAt (-1 = only when the history is over)
+	StartAt, StopAt int
+	Ptr             bool // values are pointers to rows; the very objects are retained
+	Late            bool // retained replies are rendered when the history is over
 }
 
 type step struct {
@@ -77,6 +89,25 @@ type world struct {
 	kid    map[interface{}]int
 	x      *qx.Exec
 	nid    int
+
+	started, stopped bool
+	kept             []kept // results kept as returned, rendered late
+	over             bool   // the history is over: render and write what was kept
+}
+
+type kept struct {
+	e tr.E // the record holding "v"
+	v interface{}
+}
+
+// retain: in late histories the value a call returned / the cache was given is kept AS RETURNED and
+// rendered into its event when the history is over.
+func (wd *world) retain(e tr.E, v interface{}) {
+	if wd.cfg.Late && v != nil {
+		wd.mu.Lock()
+		wd.kept = append(wd.kept, kept{e, v})
+		wd.mu.Unlock()
+	}
 }
 
 // ckey is a harness key type whose hash is constant: distinct keys, one hashed int.
@@ -122,8 +153,11 @@ func mkKey(kt string, k int) mux.Hashed2Int {
 }
 
 func (wd *world) mkVal(v int) interface{} {
+	if wd.cfg.Ptr {
+		return &pv{v}
+	}
 	if wd.cfg.Sized {
-		return sv{v, 1 + v%3}
+		return sv{v, v % 4} // sizes 0..3: free riders, and rows bigger than a small cache
 	}
 	return v
 }
@@ -134,6 +168,10 @@ func toInt(v interface{}) int {
 		return x
 	case sv:
 		return x.v
+	case *pv:
+		if x != nil {
+			return x.v
+		}
 	}
 	return nilVal
 }
@@ -154,7 +192,9 @@ func (f *fac) Peek(key interface{}) (interface{}, bool) { return f.in.Peek(key) 
 func (f *fac) Get(key interface{}) (interface{}, bool)  { return f.in.Get(key) }
 func (f *fac) Set(key interface{}, value interface{}) {
 	f.gate(key)
-	f.wd.logf(tr.E{"ev": "cset", "k": f.wd.kid[key], "v": toInt(value)})
+	e := tr.E{"ev": "cset", "k": f.wd.kid[key], "v": toInt(value)}
+	f.wd.retain(e, value)
+	f.wd.logf(e)
 	f.in.Set(key, value)
 }
 func (f *fac) Delete(key interface{}) {
@@ -192,7 +232,7 @@ func newWorld(cfg config) *world {
 	if cfg.NW > 0 {
 		opts = append(opts, mux.WithSize(cfg.NW))
 	}
-	if cfg.Deep > 0 {
+	if cfg.Deep != defaultDeep { // 0 and negative depths are accepted by the queue: unbounded
 		opts = append(opts, mux.WithDeep(cfg.Deep))
 	}
 	switch cfg.Facade {
@@ -212,7 +252,6 @@ func newWorld(cfg config) *world {
 			return &fac{wd: wd, in: in}
 		}, opts...)
 	}
-	wd.grp.Start()
 	return wd
 }
 
@@ -253,6 +292,9 @@ func (wd *world) call(o *opctx, fn string, k, d, pre int) (int, error) {
 		wd.gates[o.id] = ch
 	}
 	wd.mu.Unlock()
+	if n == 1 && has(o.g, 8) {
+		wd.nested(o)
+	}
 	if ch != nil {
 		<-ch
 	}
@@ -340,3 +382,29 @@ func preArg(x interface{}) int {
 }
 
 var _ = context.Background
+
+// owner: the worker the property's routing rule (|hash| mod workers) gives a key.
+func (wd *world) owner(k int) int {
+	n := wd.cfg.NW
+	if n == 0 {
+		n = mux.DefaultMuxSize
+	}
+	h := wd.keys[k-1].HashedInt() % n
+	if h < 0 {
+		h = -h
+	}
+	return h
+}
+
+// nested: compound use by one goroutine - a store callback (running in its worker's goroutine) reads
+// another key through the group.  Only towards a key owned by a higher-numbered worker, so that
+// nesting can never close a cycle of workers waiting for each other.
+func (wd *world) nested(o *opctx) {
+	for d := 1; d < wd.cfg.NK; d++ {
+		k2 := (o.k-1+d)%wd.cfg.NK + 1
+		if wd.owner(k2) > wd.owner(o.k) {
+			wd.submit("get", k2, nil, nil)()
+			return
+		}
+	}
+}
